@@ -76,6 +76,10 @@ def _s32(p):
 KNOWN_CLASSES = None
 
 
+# ids of the cases of this run whose zone is DNSSEC-signed (filled by monitor() from the reset events)
+SIGNED_CASES = set()
+
+
 def _known_classes():
     """classes of C12 that are listed as known findings: a repaired defect ("fixed:" line) must no
     longer explain anything, so only these may serve as triggers"""
@@ -204,6 +208,12 @@ def classify(d):
     if ser != pre_ser and any(u["c"] == "IN" and u["t"] == "CNAME" and (u["_o"], "CNAME", u["rd"]) in zone for u in upd):
         trig.append(("serial-bump-cname-readd", {"class": "IN", "type": "CNAME", "form": "identical-readd"}, {"serial"}))
 
+    # signed zone: ANY/ANY at the apex also removes the DNSKEY / NSEC RRsets the server itself maintains;
+    # that counts as a change (serial moves) although no RRset an update may touch changed
+    if str(d.get("case")) in SIGNED_CASES and any(u["c"] == "ANY" and u["t"] == "ANY" and u["_o"] == apex for u in upd):
+        trig.append(("signed-apex-any-any-deletes-dnssec-rrsets", {"owner": "apex", "class": "ANY", "type": "ANY", "zone": "signed"},
+                     {"serial"}))
+
     trig = [t for t in trig if t[0] in _known_classes()]
     explained = set()
     for (_c, _f, ex) in trig:
@@ -308,6 +318,8 @@ def monitor(res, wd, traces, shards, spec="Trace_Update", chunk_events=12000):
                     cur, n_cur = new_chunk(), 0
                 if cur is None:
                     cur = new_chunk()
+                if '"ev":"reset"' in line and '"signed":true' in line:
+                    SIGNED_CASES.add(str(json.loads(line)["case"]))
                 if '"ev":"msg"' in line or '"ev":"rmsg"' in line:
                     n_msgs += 1
                 cur.write(line)
